@@ -65,8 +65,8 @@ def near_boundary(roi, px, py, band=BAND):
     near = np.zeros(px.shape, bool)
     for dx, dy in ((BAND, 0), (-BAND, 0), (0, BAND), (0, -BAND), (BAND, BAND), (-BAND, -BAND), (BAND, -BAND), (-BAND, BAND)):
         near |= contains(roi, px + dx, py + dy) != base
-    # an element without a plotted position (NaN value, label outside the listed categories) lies in no region: expected unselected, never skipped
-    return near & ~(np.isnan(px) | np.isnan(py))
+    # an element without a plotted position (NaN value, label outside the listed categories) lies in no region: expected unselected, not skipped for being NaN (only for lying within the band of the boundary in the other coordinate)
+    return near
 
 
 def rois(extra_rng=None, n_extra=0):
